@@ -63,6 +63,61 @@ func (r vstRules) GetRules(int64) Rules                          { return r }
 func (vstRules) GetValidityWindow() int64                        { return 1 << 40 }
 func (r vstRules) GetMaxAccumulatedProducerChunkWeight() uint64 { return *r.limit }
 
+// vstCrashDB counts the individual durable writes of the storage (Put, Delete, Batch.Write).  Once armed it lets
+// `budget` more writes through and refuses every later one, as if the process had died at that point.
+type vstCrashDB struct {
+	database.Database
+	armed   bool
+	budget  int
+	tripped bool
+	writes  int
+}
+
+var errVstCrash = errors.New("verif: injected crash")
+
+func (c *vstCrashDB) allow() bool {
+	if !c.armed {
+		return true
+	}
+	if c.tripped || c.budget == 0 {
+		c.tripped = true
+		return false
+	}
+	c.budget--
+	c.writes++
+	return true
+}
+
+func (c *vstCrashDB) Put(k, v []byte) error {
+	if !c.allow() {
+		return errVstCrash
+	}
+	return c.Database.Put(k, v)
+}
+
+func (c *vstCrashDB) Delete(k []byte) error {
+	if !c.allow() {
+		return errVstCrash
+	}
+	return c.Database.Delete(k)
+}
+
+func (c *vstCrashDB) NewBatch() database.Batch {
+	return &vstCrashBatch{Batch: c.Database.NewBatch(), db: c}
+}
+
+type vstCrashBatch struct {
+	database.Batch
+	db *vstCrashDB
+}
+
+func (b *vstCrashBatch) Write() error {
+	if !b.db.allow() {
+		return errVstCrash
+	}
+	return b.Batch.Write()
+}
+
 type vstChunk struct {
 	name  string
 	prod  string
@@ -78,6 +133,7 @@ type vstHarness struct {
 	limit    uint64
 	verifier *vstVerifier
 	db       database.Database
+	cdb      *vstCrashDB
 	dir      string // pebble directory ("" = memdb)
 	st       *ChunkStorage[dsmrtest.Tx]
 	lines    []map[string]any
@@ -155,7 +211,8 @@ func (h *vstHarness) openDB() {
 }
 
 func (h *vstHarness) open() {
-	st, err := NewChunkStorage[dsmrtest.Tx](h.verifier, h.db, vstRules{limit: &h.limit})
+	h.cdb = &vstCrashDB{Database: h.db}
+	st, err := NewChunkStorage[dsmrtest.Tx](h.verifier, h.cdb, vstRules{limit: &h.limit})
 	if err != nil {
 		h.t.Fatalf("verif harness: NewChunkStorage: %v", err)
 	}
@@ -242,22 +299,53 @@ func vstRes(err error) string {
 
 func (h *vstHarness) log(line map[string]any) { h.lines = append(h.lines, h.obs(line)) }
 
-func (h *vstHarness) addLocal(name string) {
-	c := h.chunks[name]
-	err := h.st.AddLocalChunkWithCert(c.chunk, c.cert)
-	h.log(map[string]any{"ev": "addlocal", "c": name, "res": vstRes(err)})
+// crashed reports whether the armed crash point was reached during the call that just returned.  If so the process
+// is considered dead: the storage is opened again on what reached the disk and a crash line (call, arguments, number
+// of writes that got through, observables after the reopen) replaces the call's own line.
+func (h *vstHarness) crashed(line map[string]any) bool {
+	tripped, writes := h.cdb.tripped, h.cdb.writes
+	h.cdb.armed = false
+	if !tripped {
+		return false
+	}
+	h.openDB()
+	h.open()
+	line["op"], line["ev"], line["writes"] = line["ev"], "crash", writes
+	h.log(line)
+	return true
 }
 
-func (h *vstHarness) remote(name string, ok bool) {
+func (h *vstHarness) arm(budget int) {
+	if budget >= 0 {
+		*h.cdb = vstCrashDB{Database: h.cdb.Database, armed: true, budget: budget}
+	}
+}
+
+// the call functions take a crash budget: -1 = no crash point, k = the process dies at the (k+1)-th durable write
+func (h *vstHarness) addLocal(name string, budget int) {
+	c := h.chunks[name]
+	h.arm(budget)
+	err := h.st.AddLocalChunkWithCert(c.chunk, c.cert)
+	line := map[string]any{"ev": "addlocal", "c": name, "t": 0, "save": []string{}, "ok": true, "res": vstRes(err)}
+	if !h.crashed(line) {
+		h.log(line)
+	}
+}
+
+func (h *vstHarness) remote(name string, ok bool, budget int) {
 	c := h.chunks[name]
 	h.verifier.rejectChunk = !ok
+	h.arm(budget)
 	_, err := h.st.VerifyRemoteChunk(c.chunk)
 	h.verifier.rejectChunk = false
 	res := "ok"
 	if err != nil {
 		res = "rejected"
 	}
-	h.log(map[string]any{"ev": "remote", "c": name, "ok": ok, "res": res})
+	line := map[string]any{"ev": "remote", "c": name, "t": 0, "save": []string{}, "ok": ok, "res": res}
+	if !h.crashed(line) {
+		h.log(line)
+	}
 }
 
 func (h *vstHarness) setCert(name string, valid bool) {
@@ -268,16 +356,20 @@ func (h *vstHarness) setCert(name string, valid bool) {
 	h.log(map[string]any{"ev": "setcert", "c": name, "valid": valid, "res": vstRes(err)})
 }
 
-func (h *vstHarness) setMin(t int64, save []string) {
+func (h *vstHarness) setMin(t int64, save []string, budget int) {
 	idsToSave := make([]ids.ID, len(save))
 	for i, n := range save {
 		idsToSave[i] = h.chunks[n].chunk.id
 	}
+	h.arm(budget)
 	err := h.st.SetMin(t, idsToSave)
 	if save == nil {
 		save = []string{}
 	}
-	h.log(map[string]any{"ev": "setmin", "t": t, "save": save, "res": vstRes(err)})
+	line := map[string]any{"ev": "setmin", "c": "", "t": t, "save": save, "ok": true, "res": vstRes(err)}
+	if !h.crashed(line) {
+		h.log(line)
+	}
 }
 
 func (h *vstHarness) reopen() {
@@ -351,6 +443,7 @@ func TestVerifStorageRecord(t *testing.T) {
 	n := vstEnvInt("VERIF_SCENARIOS", 200)
 	depth := vstEnvInt("VERIF_DEPTH", 30)
 	pebbleEvery := vstEnvInt("VERIF_PEBBLE_EVERY", 16)
+	crashEvery := vstEnvInt("VERIF_CRASH_EVERY", 5)
 	for s := 0; s < n; s++ {
 		if only := os.Getenv("VERIF_ONLY"); only != "" && only != strconv.Itoa(s) {
 			continue
@@ -367,16 +460,22 @@ func TestVerifStorageRecord(t *testing.T) {
 		for i := 0; i < depth; i++ {
 			name := vstChunkNames[r.Intn(len(vstChunkNames))]
 			pend := h.pendingNames()
+			// crash family: one call in five runs with a crash point after 0, 1 or 2 durable writes; a call that needs
+			// fewer writes completes and is logged as an ordinary call
+			budget := -1
+			if crashEvery > 0 && r.Intn(crashEvery) == 0 {
+				budget = r.Intn(3)
+			}
 			switch k := r.Intn(100); {
 			case k < 22:
-				h.addLocal(name)
+				h.addLocal(name, budget)
 			case k < 40:
 				if vstContains(pend, name) && !h.hasCert(name) {
 					// precondition of VerifyRemoteChunk ("caller has verified this does not add a duplicate"):
 					// a pending chunk without certificate would be dereferenced
 					h.setCert(name, r.Intn(4) != 0)
 				} else {
-					h.remote(name, r.Intn(5) != 0)
+					h.remote(name, r.Intn(5) != 0, budget)
 				}
 			case k < 52:
 				h.setCert(name, r.Intn(4) != 0)
@@ -390,7 +489,7 @@ func TestVerifStorageRecord(t *testing.T) {
 						save = append(save, p)
 					}
 				}
-				h.setMin(cur, save)
+				h.setMin(cur, save, budget)
 			default:
 				h.reopen()
 			}
@@ -488,16 +587,16 @@ func TestVerifStorageReplay(t *testing.T) {
 			steps++
 			switch st.Op {
 			case "addlocal":
-				h.addLocal(st.C)
+				h.addLocal(st.C, -1)
 			case "remote":
 				if vstContains(h.pendingNames(), st.C) && !h.hasCert(st.C) {
 					t.Fatalf("verif harness: behaviour %d step %d violates the precondition of VerifyRemoteChunk", bi, si)
 				}
-				h.remote(st.C, st.Flag)
+				h.remote(st.C, st.Flag, -1)
 			case "setcert":
 				h.setCert(st.C, st.Flag)
 			case "setmin":
-				h.setMin(st.T, st.Save)
+				h.setMin(st.T, st.Save, -1)
 			case "reopen":
 				h.reopen()
 			default:
